@@ -472,16 +472,23 @@ def oracle(case, impl_line):
     commits = {}         # (c,g,t,p) -> set of offsets ever sent
     owners = {}          # (c,g,t,p) -> set of owners ever sent
     ri = 0
+    del_groups, del_topics = set(), set()   # deleted (tombstone / API delete / topic deletion) and not ingested again since
     lcache = 3600000     # expire-cache in ms (the probe's default)
     cold = True          # no cache entry filled before the next read can still be valid
     for op, now, a in d["ops"]:
         if op == "B":
             last_b[(a[0], a[1], a[2])] = a[4]
+            del_topics.discard((a[0], a[1]))
         elif op == "C":
             commits.setdefault((a[0], a[1], a[2], a[3]), set()).add(a[4])
+            del_groups.discard((a[0], a[1]))
         elif op == "O":
             owners.setdefault((a[0], a[1], a[2], a[3]), set()).add((a[4], a[5]))
+            del_groups.discard((a[0], a[1]))
+        elif op == "GG" or (op == "DG" and a[2] == 0):
+            del_groups.add((a[0], a[1]))
         elif op == "DT":
+            del_topics.add((a[0], a[1]))
             for k in [k for k in last_b if k[0] == a[0] and k[1] == a[1]]:
                 del last_b[k]
         elif op == "XC":
@@ -503,6 +510,7 @@ def oracle(case, impl_line):
                 ri += 1
                 continue
             bad += check_block(d, blk, ri, op, dict(last_b), commits, owners, cold)
+            bad += check_deleted(blk, ri, del_groups, del_topics, cold)
             ri += 1
             cold = False
     return bad
@@ -623,6 +631,26 @@ def check_block(d, blk, ri, op, last_b, commits, owners, cold=True):
                 if part["owner"] != 0 and (part["owner"], part["client"]) not in owners.get((c, g, t, p), ()):
                     bad.append(("provenance", "g%d t%d partition %d shows owner o%d never announced for it" % (g, t, p, part["owner"]),
                                 dict(where, group=(c, g))))
+    return bad
+
+
+def check_deleted(blk, ri, del_groups, del_topics, cold):
+    """Once a group or topic has been deleted (and nothing was ingested for it since) no endpoint and no series names it.
+    Topics are never cached: demanded of every read; groups: of the cold reads (a cached status may be served for the cache
+    lifetime), except the storage-backed endpoints, which are demanded always."""
+    bad = []
+    M = blk["M"] if blk["M"] != "PANIC" else {}
+    for (c, g) in sorted(del_groups):
+        if blk["GD"].get((c, g)) is not None or g in (blk["GL"].get(c) or []):
+            bad.append(("outlives", "group g%d of k%d was deleted and is still listed / detailed" % (g, c), {"read": ri, "group": (c, g)}))
+        elif cold and (blk["GA"].get((c, g), {}).get("code") == 200 or any(k[1] == str(c) and k[2] == str(g) for k in M)):
+            bad.append(("outlives", "group g%d of k%d was deleted and is still served (status / series)" % (g, c), {"read": ri, "group": (c, g)}))
+    for (c, t) in sorted(del_topics):
+        if blk["TD"].get((c, t)) is not None or t in (blk["TL"].get(c) or []) or any(k[0] == "TO" and k[1] == str(c) and k[3] == str(t) for k in M):
+            bad.append(("outlives", "topic t%d of k%d was deleted and is still listed / detailed / has offset series" % (t, c),
+                        {"read": ri, "topic": (c, t)}))
+        elif cold and any(k[1] == str(c) and k[3] == str(t) for k in M):
+            bad.append(("outlives", "topic t%d of k%d was deleted and a group still has series for it" % (t, c), {"read": ri, "topic": (c, t)}))
     return bad
 
 
